@@ -69,7 +69,7 @@ class Cluster:
             self.ads.append(a)
             trunk_end = trunk_end >> a
         for k, chain in enumerate(cfg["consumers"]):
-            inp = fm.Input("i%d" % k, fm.Info(time=T0, grid=grid, units=None))
+            inp = fm.Input("i%d" % k, fm.Info(time=T0, grid=grid, units=cfg.get("in_units")))
             inp.v_k = k
             ch = trunk_end
             for tok in chain:
@@ -125,6 +125,8 @@ class Cluster:
             got = d
         except (E.FinamTimeError, E.FinamNoDataError) as e:
             err = e
+        except Exception as e:  # noqa - judged below: only acceptable where the statement leaves the answer open
+            err = e
         finally:
             self.cur_pull = None
         link = self.links[k]
@@ -135,6 +137,8 @@ class Cluster:
         except R.Refuse as r:
             exp, refuse = None, r.why
         if refuse is not None:
+            if err is not None and not isinstance(err, (E.FinamTimeError, E.FinamNoDataError)):
+                self.viol.append(("crash", dict(kind="unexpected_exception", error=type(err).__name__, chain=cls), f"consumer {k} chain {chain} pull at {float(t)}: {type(err).__name__}: {str(err)[:120]}"))
             if err is None:
                 self.viol.append(("served", dict(kind="served_but_reference_refuses", why=refuse, chain=cls), f"consumer {k} chain {chain} pull at {float(t)} served {scalar_of(self.cfg.get('payload', 'scalar'), got)} but must be refused ({refuse})"))
                 self.last[k] = t
@@ -142,10 +146,24 @@ class Cluster:
         if err is not None:
             if exp is R.ANY:
                 return
+            if not isinstance(err, (E.FinamTimeError, E.FinamNoDataError)):
+                self.viol.append(("crash", dict(kind="unexpected_exception", error=type(err).__name__, chain=cls), f"consumer {k} chain {chain} pull at {float(t)}: {type(err).__name__}: {str(err)[:120]}"))
+                return
             self.viol.append(("refused", dict(kind="refused_but_reference_serves", error=type(err).__name__, chain=cls), f"consumer {k} chain {chain} pull at {float(t)} refused ({type(err).__name__}: {str(err)[:90]}) but the unlimited-history reference serves {sorted(float(x) for x in exp)}"))
             return
         self.last[k] = t
         self.req_src[k] = req_at_src
+        if exp is R.ANY:  # the statement leaves this answer open (e.g. repeated pull time on an integrating adapter)
+            self.after_pull()
+            return
+        if self.cfg.get("expect_units") is not None and got.units != fm.UNITS.Unit(self.cfg["expect_units"]):
+            self.viol.append(("units", dict(kind="wrong_units", chain=cls), f"consumer {k} result units {got.units} != {self.cfg['expect_units']}"))
+        if self.cfg.get("convert_to"):
+            try:
+                got = got.to(self.cfg["convert_to"])
+            except Exception as e:  # noqa
+                self.viol.append(("units", dict(kind="wrong_units", chain=cls), f"consumer {k} chain {chain}: result units {got.units} not convertible to {self.cfg['convert_to']} ({type(e).__name__})"))
+                return
         kind = self.cfg.get("payload", "scalar")
         val = scalar_of(kind, got)
         scale = Fr(self.cfg.get("value_scale", 1))
@@ -154,8 +172,6 @@ class Cluster:
         want_shape = (1,) if kind == "scalar" else (1, 2, 2)
         if tuple(got.shape) != want_shape:
             self.viol.append(("shape", dict(kind="wrong_shape", chain=cls), f"consumer {k} result shape {got.shape} != {want_shape}"))
-        if self.cfg.get("expect_units") is not None and str(got.units) != self.cfg["expect_units"]:
-            self.viol.append(("units", dict(kind="wrong_units", chain=cls), f"consumer {k} result units {got.units} != {self.cfg['expect_units']}"))
         self.after_pull()
 
     def after_pull(self):
@@ -202,10 +218,10 @@ class Cluster:
             self.pull(ev[1], Fr(ev[2]))
 
     def key(self):
-        # Info.time (the slot's declared start time) is only read while connecting: not part of the post-connect state.
+        # Info._time (the declared start time of a slot) is only read while connecting; Output._time always equals the newest retained entry: neither is part of the post-connect state.
         # Other absolute times (start-time clamp of delay adapters) stop mattering once older than window + total delay + largest gap.
         cut = (Fr(self.cfg.get("window", 4)) + Fr(self.cfg.get("dmax", 0)) + 3) * 3600
-        return fingerprint((self.out, self.inps, self.ads, self.source, self.links, self.last_gap, sorted((k, None if v is None else v - hrs(self.newest)) for k, v in self.req_src.items()), [None if l is None else l - hrs(self.newest) for l in self.last]), tnorm=(self.newest, int(cut)), skip_keys=frozenset(["time"]))
+        return fingerprint((self.out, self.inps, self.ads, self.source, self.links, self.last_gap, sorted((k, None if v is None else v - hrs(self.newest)) for k, v in self.req_src.items()), [None if l is None else l - hrs(self.newest) for l in self.last]), tnorm=(self.newest, int(cut)), skip_keys=frozenset(["_time"]))
 
 
 def explore(cfg, max_depth=None, max_states=200000, max_seconds=None):
